@@ -742,9 +742,40 @@ class Processor:
         """
         self._delete_nodes(gathered_nodes)
 
+    @staticmethod
+    def _leaf_node_coords(
+        gathered_nodes: List[NodeCoords]
+    ) -> Generator[NodeCoords, None, None]:
+        """
+        Yield the innermost NodeCoords of gathered nodes, in gather order.
+
+        Collector results are lists of NodeCoords wrapped in a NodeCoords
+        and a NodeCoords may itself wrap another NodeCoords.
+
+        Parameters:
+        1. gathered_nodes (List[NodeCoords]) The gathered nodes.
+
+        Returns:  (Generator) The NodeCoords which refer to document nodes
+        """
+        for node_coord in gathered_nodes:
+            node = node_coord.node
+            if (isinstance(node, list)
+                and len(node) > 0
+                and isinstance(node[0], NodeCoords)
+            ):
+                yield from Processor._leaf_node_coords(node)
+            elif isinstance(node, NodeCoords):
+                yield from Processor._leaf_node_coords([node])
+            else:
+                yield node_coord
+
     def _delete_nodes(self, delete_nodes: List[NodeCoords]) -> None:
         """
-        Recursively delete specified nodes.
+        Delete specified nodes.
+
+        Every specified node is deleted exactly once, no matter how many
+        times or in what order it was gathered (Collectors can gather the
+        same node repeatedly and in any order).
 
         Parameters:
         1. delete_nodes (List[NodeCoords]) The nodes to delete.
@@ -753,11 +784,32 @@ class Processor:
         - `YAMLPathException` when the operation would destroy the entire
            document
         """
-        # pylint: disable=locally-disabled,too-many-nested-blocks
-        for delete_nc in reversed(delete_nodes):
-            node = delete_nc.node
+        # Identify each place -- parent and parentref -- to delete only once.
+        # Negative list indexes are resolved against the intact list.
+        places: List[Any] = []
+        seen_places = set()
+        for delete_nc in Processor._leaf_node_coords(delete_nodes):
             parent = delete_nc.parent
             parentref = delete_nc.parentref
+            position = -1
+            if isinstance(parent, list) and isinstance(parentref, int):
+                if parentref < 0:
+                    parentref += len(parent)
+                position = parentref
+
+            place = (id(parent), parentref)
+            if place not in seen_places:
+                seen_places.add(place)
+                places.append((position, parent, parentref, delete_nc))
+
+        # Nodes are deleted in reverse gather order except that the elements
+        # of any one list must be deleted from its end toward its start to
+        # avoid corrupting the indecies of the elements yet to be deleted,
+        # thereby deleting the wrong nodes.
+        places.reverse()
+        places.sort(key=lambda place: place[0], reverse=True)
+
+        for (_, parent, parentref, delete_nc) in places:
             ancestry = delete_nc.ancestry
             self.logger.debug(
                 "Deleting node:",
@@ -767,14 +819,7 @@ class Processor:
                 data=delete_nc)
 
             # Ensure the reference exists before attempting to delete it
-            if (isinstance(node, list)
-                and len(node) > 0
-                and isinstance(node[0], NodeCoords)
-            ):
-                self._delete_nodes(node)
-            elif isinstance(node, NodeCoords):
-                self._delete_nodes([node])
-            elif isinstance(parent, (CommentedMap, dict)):
+            if isinstance(parent, (CommentedMap, dict)):
                 all_data = ancestry[0][0] if len(ancestry) > 0 else parent
                 all_anchors: Dict[str, Any] = {}
                 Anchors.scan_for_anchors(all_data, all_anchors)
@@ -800,7 +845,7 @@ class Processor:
                 elif parentref in parent:
                     del parent[parentref]
             elif isinstance(parent, (CommentedSeq, list)):
-                if len(parent) > parentref:
+                if 0 <= parentref < len(parent):
                     del parent[parentref]
             elif isinstance(parent, (CommentedSet, set)):
                 parent.discard(parentref)
